@@ -38,7 +38,7 @@ PROPS = {
 TRUSTED_BASE = [
     "Lean 4.33.0 kernel (theorems re-checked by `lake build`; thorough tier also leanchecker)",
     "axioms used by the theorems: subset of {propext, Quot.sound, Classical.choice} (listed per theorem); no sorry/admit/native_decide/bv_decide/own axioms",
-    "fact extractor harness/cmd/extract (go/ast) regenerating CoseModel/Generated/Facts.lean from /repo (constants, prefixes, context strings, decision tables, panic/write-site inventories, statement lists of the crypto wrapper functions); baselines in CoseProofs/FactsTie.lean and CoseProofs/SignersTie.lean, compared by rfl theorems",
+    "fact extractor harness/cmd/extract (go/ast) regenerating CoseModel/Generated/Facts.lean from /repo (constants, prefixes, context strings, decision tables, panic/write-site inventories, statement lists of the crypto wrapper functions); per-property baselines in CoseProofs/Ties/Cxx.lean, compared by rfl theorems",
     "correspondence check: Go harness cosedrive (public API of /repo only) vs compiled Lean model cosemodel, same operation lines, canonicalised outputs diffed",
     "hand-written model of fxamacker/cbor v2.5.0, math/big, Go map semantics (validated by the correspondence only)",
     "crypto primitives are parameters: message-level theorems under Matches/Unique hypotheses on an abstract Signer/Verifier (transparent scheme sig=0x01||keyid||content in both Go and Lean for the correspondence); the built-in ECDSA/RSA-PSS/Ed25519 signer and verifier objects are modelled as wrappers over an arbitrary primitive (CoseModel/Signers.lean) and Matches is derived from correctness of the primitive; Go stdlib crypto trusted in the real-algorithm sweeps",
@@ -53,25 +53,25 @@ ASSUMPTIONS = [
 
 # additional theorem modules per property (namespace Cxx), beyond CoseProofs.Props.Cxx
 DEEP = {
-    "C01": ["CoseProofs.Deep.Chain", "CoseProofs.Deep.WireClosure", "CoseProofs.SignersTie", "CoseProofs.Deep.Signers", "CoseProofs.Deep.SignWireClosure", "CoseProofs.Deep.NestedBuckets", "CoseProofs.Deep.NestedClosures", "CoseProofs.Deep.CsigRoundTrip"],
-    "C02": ["CoseProofs.Deep.Tbs", "CoseProofs.SignersTie"],
-    "C03": ["CoseProofs.Deep.Tbs", "CoseProofs.Deep.Tamper", "CoseProofs.SignersTie", "CoseProofs.Deep.Signers"],
-    "C04": ["CoseProofs.FactsTie", "CoseProofs.Deep.Tamper", "CoseProofs.Deep.AlgWire"],
+    "C01": ["CoseProofs.Deep.Chain", "CoseProofs.Deep.WireClosure", "CoseProofs.Deep.Signers", "CoseProofs.Deep.SignWireClosure", "CoseProofs.Deep.NestedBuckets", "CoseProofs.Deep.NestedClosures", "CoseProofs.Deep.CsigRoundTrip", "CoseProofs.Ties.C01"],
+    "C02": ["CoseProofs.Deep.Tbs", "CoseProofs.Ties.C02"],
+    "C03": ["CoseProofs.Deep.Tbs", "CoseProofs.Deep.Tamper", "CoseProofs.Deep.Signers", "CoseProofs.Ties.C03"],
+    "C04": ["CoseProofs.Deep.Tamper", "CoseProofs.Deep.AlgWire", "CoseProofs.Ties.C04"],
     "C05": ["CoseProofs.Deep.Reencode", "CoseProofs.Deep.Accept", "CoseProofs.Deep.SignMsg", "CoseProofs.Deep.NestedRoundTrip"],
-    "C06": ["CoseProofs.Deep.NoPanic"],
+    "C06": ["CoseProofs.Deep.NoPanic", "CoseProofs.Ties.C06"],
     "C07": ["CoseProofs.Deep.Accept", "CoseProofs.Deep.Verifies"],
     "C08": ["CoseProofs.Deep.Headers", "CoseProofs.Deep.RoundTrip", "CoseProofs.Deep.NestedRoundTrip", "CoseProofs.Deep.NestedBuckets", "CoseProofs.Deep.CsigRoundTrip"],
     "C09": ["CoseProofs.Deep.Reencode", "CoseProofs.Deep.SignMsg", "CoseProofs.Deep.ClearRaw", "CoseProofs.Deep.NestedClosures"],
     "C11": ["CoseProofs.Deep.SignMsg"],
-    "C10": ["CoseProofs.Deep.Tbs", "CoseProofs.FactsTie", "CoseProofs.Deep.Tamper", "CoseProofs.SignersTie"],
-    "C12": ["CoseProofs.Deep.Keys", "CoseProofs.Deep.Chain", "CoseProofs.FactsTie", "CoseProofs.Deep.WireClosure", "CoseProofs.Deep.NestedClosures"],
-    "C13": ["CoseProofs.Deep.Headers", "CoseProofs.FactsTie", "CoseProofs.Deep.Verifies"],
+    "C10": ["CoseProofs.Deep.Tbs", "CoseProofs.Deep.Tamper", "CoseProofs.Ties.C10"],
+    "C12": ["CoseProofs.Deep.Keys", "CoseProofs.Deep.Chain", "CoseProofs.Deep.WireClosure", "CoseProofs.Deep.NestedClosures", "CoseProofs.Ties.C12"],
+    "C13": ["CoseProofs.Deep.Headers", "CoseProofs.Deep.Verifies", "CoseProofs.Ties.C13"],
     "C14": ["CoseProofs.Deep.Keys", "CoseProofs.Deep.KeyRoundTrip"],
-    "C15": ["CoseProofs.Deep.Keys", "CoseProofs.FactsTie", "CoseProofs.Deep.KeyRoundTrip"],
-    "C17": ["CoseProofs.FactsTie", "CoseProofs.SignersTie", "CoseProofs.Deep.Signers"],
-    "C20": ["CoseProofs.Deep.Tamper", "CoseProofs.SignersTie", "CoseProofs.Deep.Signers"],
-    "C18": ["CoseProofs.FactsTie"],
-    "C16": ["CoseProofs.SignersTie", "CoseProofs.Deep.Signers"],
+    "C15": ["CoseProofs.Deep.Keys", "CoseProofs.Deep.KeyRoundTrip", "CoseProofs.Ties.C15"],
+    "C17": ["CoseProofs.Deep.Signers", "CoseProofs.Ties.C17"],
+    "C20": ["CoseProofs.Deep.Tamper", "CoseProofs.Deep.Signers", "CoseProofs.Ties.C20"],
+    "C18": ["CoseProofs.Ties.C18"],
+    "C16": ["CoseProofs.Deep.Signers", "CoseProofs.Ties.C16"],
 }
 
 
